@@ -43,8 +43,12 @@ import (
 	"verif/harness/tracefmt"
 )
 
-const secret = "a velocity secret \x00 with ü"
-const wrongSecret = "a velocity secret \x00 with u"
+// the live proxy's configured secret: leading and trailing white space belongs to it
+const secret = " \ta velocity secret \x00 with ü \n"
+
+// secrets for shim payloads (the MAC is verified under the secret exactly as configured)
+var shimSecrets = []string{secret, "plain-secret", "trailing-newline\n", "trailing-crlf\r\n", " leading-space",
+	"\tleading-tab", "trailing-space ", "trailing-tab\t", "   ", "\n", "in the middle"}
 
 func supported() (list []int) {
 	for _, v := range version.SupportedVersions {
@@ -189,9 +193,9 @@ type want struct {
 	Key   keyRec    `json:"key"`
 }
 
-func fwdRec(src string, proto int, key string, req int, payload []byte, w want) tracefmt.Rec {
+func fwdRec(src, sec string, proto int, key string, req int, payload []byte, w want) tracefmt.Rec {
 	rec := tracefmt.Rec{"ev": "fwd", "src": src, "proto": proto, "key": key, "req": req, "want": w,
-		"macok": macOK(secret, payload), "macwrong": macOK(wrongSecret, payload), "data": []int{}, "parsed": false}
+		"macok": macOK(sec, payload), "macwrong": macOK(sec+"u", payload), "secret": bs(sec), "data": []int{}, "parsed": false}
 	var p parsed
 	ok := false
 	if len(payload) >= 32 {
@@ -332,11 +336,12 @@ func TestTrace(t *testing.T) {
 		}
 		ip := ips[(i/3)%len(ips)]
 		w.IP, w.UUID, w.Name, w.Props = bs(ip), tracefmt.Bytes(pl.UUID[:]), bs(pl.Name), propRecs(pl.Props)
-		payload, err := proxy.VerifC20CreateForwardingData([]byte(secret), ip, pl, s.Req)
+		sec := shimSecrets[(i+int(seed))%len(shimSecrets)]
+		payload, err := proxy.VerifC20CreateForwardingData([]byte(sec), ip, pl, s.Req)
 		if err != nil {
 			t.Fatalf("CreateForwardingData(%+v): %v", s, err)
 		}
-		rec := fwdRec("shim", s.Proto, s.Key, s.Req, payload, w)
+		rec := fwdRec("shim", sec, s.Proto, s.Key, s.Req, payload, w)
 		tw.Emit(rec)
 		stats["shim_payloads"]++
 		stats[sizeClass("shim", len(payload))]++
@@ -523,7 +528,7 @@ func TestTrace(t *testing.T) {
 					return
 				}
 				w := want{IP: bs(local), UUID: tracefmt.Bytes(lv.id[:]), Name: bs(name), Props: propRecs(lv.props), Key: noKey()}
-				rec := fwdRec("live", j.proto, "none", j.req, res.resp.Data, w)
+				rec := fwdRec("live", secret, j.proto, "none", j.req, res.resp.Data, w)
 				rec["success"] = res.resp.Success
 				tw.Emit(rec)
 				stats["live_payloads"]++
